@@ -43,7 +43,7 @@ type c31Hop struct {
 
 type c31Fault struct {
 	Hop  int    `json:"hop"`  // -1: no fault in this attempt
-	Kind string `json:"kind"` // 500 | 503 | 404 | reset | cutbody
+	Kind string `json:"kind"` // 500 | 503 | 404 | reset | cutbody | stall (no answer until the caller's client times out)
 }
 
 type c31Case struct {
@@ -156,7 +156,7 @@ func genC31(t *rapid.T) c31Case {
 		f := c31Fault{Hop: -1}
 		if rapid.IntRange(0, 3).Draw(t, "fault?") != 0 {
 			f.Hop = rapid.IntRange(0, n-1).Draw(t, "faulthop")
-			f.Kind = []string{"500", "503", "404", "reset", "cutbody"}[rapid.IntRange(0, 4).Draw(t, "faultkind")]
+			f.Kind = []string{"500", "503", "404", "reset", "cutbody", "stall"}[rapid.IntRange(0, 5).Draw(t, "faultkind")]
 		}
 		c.Faults = append(c.Faults, f)
 	}
@@ -233,6 +233,19 @@ var (
 	c31O    *c31Origin
 )
 
+// c31ClientFor returns the shared client, or for cases whose script stalls a
+// copy with the short time-out a caller sets to bound a fetch.
+func c31ClientFor(o *c31Origin, c c31Case) *http.Client {
+	for _, f := range c.Faults {
+		if f.Hop >= 0 && f.Kind == "stall" {
+			cl := *o.client
+			cl.Timeout = 250 * time.Millisecond
+			return &cl
+		}
+	}
+	return o.client
+}
+
 func theC31Origin() *c31Origin {
 	c31Once.Do(func() {
 		// abstract socket: nothing to clean up on disk
@@ -295,6 +308,17 @@ func (o *c31Origin) serve(w http.ResponseWriter, r *http.Request) {
 				http.Error(w, "gone", 404)
 				return
 			case "reset":
+				if hj, ok := w.(http.Hijacker); ok {
+					conn, _, _ := hj.Hijack()
+					conn.Close()
+				}
+				return
+			case "stall":
+				// say nothing until the caller gives up (its client carries a short time-out in such cases)
+				select {
+				case <-r.Context().Done():
+				case <-time.After(5 * time.Second):
+				}
 				if hj, ok := w.(http.Hijacker); ok {
 					conn, _, _ := hj.Hijack()
 					conn.Close()
@@ -382,6 +406,11 @@ func c31Zstd(raw []byte, frames int, skippable bool) []byte {
 
 func runC31(c c31Case) (out lib.Outcome) {
 	o := theC31Origin()
+	for _, f := range c.Faults {
+		if f.Hop >= 0 {
+			out.Label("fault:" + f.Kind)
+		}
+	}
 	raw := c31Payload(c.DecodedSize)
 	st := &c31State{c: c, body: raw}
 	if c.Zstd {
@@ -423,7 +452,7 @@ func runC31(c c31Case) (out lib.Outcome) {
 		},
 		MaxRetries:           c.MaxRetries,
 		RetryDelay:           time.Millisecond,
-		HTTPClient:           o.client,
+		HTTPClient:           c31ClientFor(o, c),
 		MaxFetchBytes:        maxFetch,
 		MaxDecompressedBytes: maxDecomp,
 		MaxRedirects:         c.MaxRedirects,
@@ -586,7 +615,7 @@ var propC31 = lib.Prop[c31Case]{
 		"per-attempt fault at any hop (500/503/404/connection reset/body cut short). Non-trivial: chain of >=2 hops with a rejected hop, or >=1 retry observed.",
 	Gen: genC31,
 	Run: runC31,
-	Essential: []string{"outcome:ok", "outcome:error", "first-url-rejected", "redirect-target-rejected", "chain-longer-than-max-redirects",
+	Essential: []string{"fault:stall", "fault:reset", "outcome:ok", "outcome:error", "first-url-rejected", "redirect-target-rejected", "chain-longer-than-max-redirects",
 		"retried", "body-over-fetch-cap", "body-over-decompression-cap", "body-within-3-of-fetch-cap", "body-within-3-of-decompression-cap", "zstd-multi-frame"},
 	EssentialMin: 300,
 	Assumptions: []string{
